@@ -122,6 +122,9 @@ pub struct DapCtx<'a> {
     pub fns: Vec<String>,
     /// candidate instruction addresses
     pub insns: Vec<u64>,
+    /// where a breakpoint on fns[0] stops according to the reference reader, used when no patch
+    /// inside the function can be observed (empty: trust the observed patches only)
+    pub fn_fallback: Vec<u64>,
 }
 
 fn opt_json(o: BpOpt) -> Value {
@@ -222,6 +225,10 @@ pub struct DModel {
     pub cancelled_next: bool,
     /// hit counters of the adapter are in a state the property does not define (after restart)
     pub hits_unknown: bool,
+    /// kinds (0 line, 1 function, 2 instruction) in the order of their latest set-request, with
+    /// whether that set was non-empty; kept only by explorations whose records share an
+    /// instruction, where the order in which records were made is part of the state
+    pub set_order: Vec<(u8, bool)>,
 }
 
 #[derive(Default)]
@@ -380,6 +387,18 @@ pub fn update_model(cx: &DapCtx, m: &mut DModel, sym: &Sym, obs: &Value) {
         }
     }
     m.cancelled_next = matches!(sym, Sym::CancelFuture) && success;
+    if success && !cx.fn_fallback.is_empty() {
+        let k = match sym {
+            Sym::SetBps(v) => Some((0u8, !v.is_empty())),
+            Sym::SetFnBps(v) => Some((1u8, !v.is_empty())),
+            Sym::SetInsnBps(v) => Some((2u8, !v.is_empty())),
+            _ => None,
+        };
+        if let Some((k, ne)) = k {
+            m.set_order.retain(|e| e.0 != k);
+            m.set_order.push((k, ne));
+        }
+    }
     let phase = if !m.launched { 0 } else if !m.configured { 1 } else { 2 };
     match sym {
         Sym::Initialize if success => m.initialized = true,
@@ -461,8 +480,8 @@ pub fn update_model(cx: &DapCtx, m: &mut DModel, sym: &Sym, obs: &Value) {
 
 pub fn canon(m: &DModel) -> String {
     format!(
-        "{}{}{}{}|{:?}|{}{}{}|{:?}|{:?}|{:?}|{:?}|{:?}",
-        m.initialized as u8, m.launched as u8, m.configured as u8, m.cancelled_next as u8, m.idx.map(|i| i as i64).or(m.stopped_pc.map(|p| -(p as i64))), m.exited as u8, m.terminated as u8, m.ended as u8, m.line_bps, m.fn_bps, (&m.insn_bps, m.insn_opt), (m.line_phase, m.prev_line_phase, m.fn_phase, m.insn_phase, m.hits_unknown), m.hits
+        "{}{}{}{}|{:?}|{}{}{}|{:?}|{:?}|{:?}|{:?}|{:?}|{:?}",
+        m.initialized as u8, m.launched as u8, m.configured as u8, m.cancelled_next as u8, m.idx.map(|i| i as i64).or(m.stopped_pc.map(|p| -(p as i64))), m.exited as u8, m.terminated as u8, m.ended as u8, m.line_bps, m.fn_bps, (&m.insn_bps, m.insn_opt), (m.line_phase, m.prev_line_phase, m.fn_phase, m.insn_phase, m.hits_unknown), m.hits, m.set_order
     )
 }
 
@@ -691,7 +710,7 @@ pub fn drive(cx: &DapCtx, cfg: &DapCfg, path: &[Sym], extra_oracle: &(dyn Fn(&Da
 
 #[allow(clippy::too_many_arguments)]
 fn walk(cx: &DapCtx, cfg: &DapCfg, shared: &Mutex<Shared>, start_key: String, first: Sym, prefix: Vec<Sym>, extra_oracle: &(dyn Fn(&DapCtx, &DModel, &mut DModel, &Sym, &Value, &str, &mut Vec<Finding>) + Sync)) {
-    let replay_of = |path: &[Sym]| json!({"engine":"dap","prop":cfg.prop,"exe":cx.p.built.exe,"lines":cx.lines,"fns":cx.fns,"insns":cx.insns,"path":path,"history":path.iter().map(|a| a.label()).collect::<Vec<_>>()});
+    let replay_of = |path: &[Sym]| json!({"engine":"dap","prop":cfg.prop,"exe":cx.p.built.exe,"lines":cx.lines,"fns":cx.fns,"insns":cx.insns,"fn_fallback":cx.fn_fallback,"path":path,"history":path.iter().map(|a| a.label()).collect::<Vec<_>>()});
     let timeout = Duration::from_secs(90);
     let mut reached_keys: Vec<String> = vec![];
     let (mut sess, mut m, mut mon, mut path, mut seq) = loop {
@@ -856,6 +875,7 @@ pub fn replay(v: &Value) -> i32 {
         lines: serde_json::from_value(v["lines"].clone()).unwrap_or_default(),
         fns: serde_json::from_value(v["fns"].clone()).unwrap_or_default(),
         insns: serde_json::from_value(v["insns"].clone()).unwrap_or_default(),
+        fn_fallback: serde_json::from_value(v["fn_fallback"].clone()).unwrap_or_default(),
     };
     let path: Vec<Sym> = serde_json::from_value(v["path"].clone()).unwrap_or_default();
     let prop_static: &'static str = Box::leak(prop.clone().into_boxed_str());
